@@ -97,8 +97,13 @@ def check_C18(run):
         lines = sel if tp != "pipe" else [x for x in sel if '"op":"PC"' not in x]
         replay_validate(run, lines, ["ctxio", "-transport", tp], "CtxIOTrace", io_trace_cfg(), "C18 frame reads and raw reads interleaved over %s" % tp,
                         nontrivial=nt, classify=io_classify("C18"), shards=16)
+    # end to end: Connection.Upgrade (client) and Call.Conn (handler) after an upgraded call, payload coalesced or not
+    from props_tables import table_replay, TR_CFG, GEN_CFG
+    ups = run.generate("UpgradeGen", GEN_CFG, ["upg_scen.ndjson"])["upg_scen.ndjson"]
+    table_replay(run, ups * (3 if thorough else 1), ["upgrade"], "Upgrade", TR_CFG, "C18 upgraded calls end to end (client: Upgrade's object; service: Call.Conn)", shards=8,
+                 nontrivial=lambda c: '"seg":"coalesced"' in c or '"seg":"payload-in-two"' in c)
     run.write_evidence("model_checking",
-        "schedules = environment histories of spec/CtxIOGen.tla (peer writes of 1-3 bytes, peer close, ReadBytes, Read(1|2|5)) of 7 steps, TLC -simulate, restricted to live contexts; stream of 8 offset-patterned bytes with delimiters at 3 and 6; non-trivial = both a frame read and a raw read returned",
+        "schedules = environment histories of spec/CtxIOGen.tla (peer writes of 1-3 bytes, peer close, ReadBytes, Read(1|2|5|larger than the stream)) of 7 steps, TLC -simulate, restricted to live contexts; plus the 80 end-to-end scenarios of spec/Upgrade.tla (client side through Connection.Upgrade against a scripted server, service side through Call.Conn of a real handler; frame+payload coalesced / split before the payload / split inside the frame / byte-wise / payload in two; payload 1 B .. 70 KiB; unix and tcp; raw reads with buffers 1 B .. 100 KB); stream of 8 offset-patterned bytes with delimiters at 3 and 6; non-trivial = both a frame read and a raw read returned",
         exhaustive=False,
         assumptions=["each byte carries its stream offset, so the recorder needs no oracle",
                      "client side (object returned by Upgrade) and handler side (Call.Conn) are the same ctxio.Conn type, reached through the verif accessor VerifNewRW; the end-to-end upgrade scenario is part of C17's transports"])
